@@ -431,8 +431,7 @@ def cl_circ_map(shape, a, phi, b, ref, seed):
 def cl_sequence(shape, calls, seed):
     """state independence: a sequence of calls on same-size images (different origins / dr / dt / kinds) made in one
     process; every call must return exactly what the same call returns when it is the first one made in a fresh state
-    (the modules are re-imported for the reference), and the relations int2D = 2 pi r avg2D, int3D = 4 pi r^2 avg3D
-    must hold between the results of the sequence.  calls = [[function, origin, dr, dt], ...] with function one of the
+    (abel.tools.polar and abel.tools.vmi are re-imported for the reference).  calls = [[function, origin, dr, dt], ...] with function one of the
     four kinds, the four wrappers, 'reproject' and 'reprojectJ'."""
     import importlib
     rng = np.random.default_rng(seed)
